@@ -14,6 +14,10 @@ VARS = {"time": ("i", [7, 8]), "i_max": ("i", [10, 11]), "i": ("i", [1, 2, 3]), 
 UNKNOWN = [("nosuch", "i", 5), ("i_", "i", 5), ("i_maxx", "i", 5), ("", "i", 5)]      # unknown identifiers, also a proper prefix / an extension of a known one, and the empty name
 # wrongly typed definitions: (var, api type, value)
 WRONG = [("i", "s", "q"), ("s", "i", 7), ("f", "i", 7), ("b", "s", "q")]
+# the full matrix (variable of one type, API function of another) - every rejected definition must leave the variable as it was, at both levels
+_WV = {"i": 7, "s": "q", "f": 9.25, "b": 1}
+WRONG_ALL = [(v, t, _WV[t]) for v in ("i", "s", "f", "b") for t in ("f", "i", "s", "b") if t != VARS[v][0]]
+WRONG_SC = [w for w in WRONG_ALL if w not in WRONG][::2]
 
 
 def probes():
@@ -56,7 +60,7 @@ def ops_for(state):
     for u in UNKNOWN[:3]:
         ops.append(("defr",) + u)
     ops.append(("defr", "s", "s", None))
-    for w in WRONG[:2]:
+    for w in WRONG_ALL:
         ops.append(("defr",) + w)
     ops.append(("scanr",))
     for j in (0, 1):
@@ -67,7 +71,7 @@ def ops_for(state):
                 for val in vals[1:]:
                     ops.append(("defs", j, v, t, val))
             ops.append(("defs", j, "nosuch", "s", "q")); ops.append(("defs", j, "i_", "i", 5))
-            for w in WRONG:
+            for w in WRONG + WRONG_SC:
                 ops.append(("defs", j) + w)
             ops.append(("scan", j))
             ops.append(("del", j))
